@@ -14,6 +14,8 @@
 #include <xenium/ramalhete_queue.hpp>
 #include <xenium/vyukov_bounded_queue.hpp>
 
+#include <deque>
+
 using namespace hz;
 using namespace mon;
 
@@ -424,6 +426,193 @@ void run_queue(const QParams& prm, const ExecCtx& ctx, ExecOut& out) {
   }
 }
 
+// ---- large constructions (C06: "every k >= 1 and every segment count the constructor accepts ... products above 2^16") ------
+// One execution = one sequential sweep on the main thread over a construction with k * segments around and above 2^16: fill until
+// rejected, drain, then random bursts that keep crossing the wrap-around. No concurrency, so the k-FIFO specification is exact:
+// a pop returns one of the k oldest values present, EMPTY only when nothing is stored, a push is rejected only with at least
+// (segments-1)*k+1 values stored. The deciding oracle is the reference model below, not the WGL search (histories have 10^5..10^6
+// operations); the last operations before a violation are the witness.
+template <class Ad>
+void run_big(const QParams& prm, const ExecCtx& ctx, ExecOut& out) {
+  using E = typename Ad::Elem;
+  Rng rng(ctx.seed);
+  elems().reset();
+  Recorder mrec{false};
+  Ad* ad;
+  {
+    xrt::quiet_end();
+    ad = new Ad(prm);
+    xrt::quiet_begin();
+  }
+  const int64_t cap = Ad::bounded ? prm.k * prm.segments : -1;
+  const int64_t min_full = Ad::bounded ? (prm.segments - 1) * prm.k + 1 : 0;
+  const int64_t span = Ad::bounded ? cap : prm.k * 3;
+  // values are 1, 2, 3, ... in push order; `present` = Fenwick tree over the ids of the stored values (rank queries in O(log n))
+  struct Present {
+    std::vector<int32_t> bit;
+    std::vector<uint8_t> in;
+    size_t n = 0;
+    explicit Present(size_t cap) : bit(cap + 2, 0), in(cap + 2, 0) {}
+    void upd(size_t i, int d) {
+      for (; i < bit.size(); i += i & (~i + 1))
+        bit[i] += d;
+    }
+    size_t size() const { return n; }
+    bool empty() const { return n == 0; }
+    bool has(int64_t v) const { return v > 0 && (size_t)v < in.size() && in[(size_t)v]; }
+    void add(int64_t v) { in[(size_t)v] = 1; upd((size_t)v, 1); ++n; }
+    void del(int64_t v) { in[(size_t)v] = 0; upd((size_t)v, -1); --n; }
+    size_t rank(int64_t v) const { // number of stored values older than v
+      size_t r = 0;
+      for (size_t i = (size_t)v - 1; i > 0; i -= i & (~i + 1))
+        r += (size_t)bit[i];
+      return r;
+    }
+  } present((size_t)(span * 4 + 200000));
+  std::deque<std::string> tail_log;
+  int64_t next_id = 1;
+  uint64_t nops = 0, pushes_ok = 0, pushes_rej = 0, pops_ok = 0, pops_empty = 0, wraps = 0, max_rank = 0;
+  int64_t pushed_total = 0;
+  auto log_op = [&](const OpRec& o) {
+    tail_log.push_back(queue_op_str(o) + fmt("   (stored before: %zu)", present.size()));
+    if (tail_log.size() > 24)
+      tail_log.pop_front();
+  };
+  auto witness = [&]() {
+    std::string s = fmt("... %" PRIu64 " operations, the last ones:\n", nops);
+    for (auto& l : tail_log)
+      s += l + "\n";
+    return s;
+  };
+  auto do_push = [&]() -> bool {
+    OpRec o;
+    POp p{Q_PUSH, next_id++, 0, false};
+    xrt::quiet_end();
+    exec_op(ad, p, o, mrec, 0);
+    xrt::quiet_begin();
+    ++nops;
+    xrt::main_progress();
+    log_op(o);
+    if (o.r) {
+      ++pushes_ok;
+      if (cap >= 0 && (int64_t)present.size() >= cap) {
+        out.fail("C06", "big-overfull", fmt("push accepted although %zu >= k*segments = %" PRId64 " values are stored", present.size(), cap));
+        return false;
+      }
+      present.add(p.value);
+      if (cap > 0 && ++pushed_total % cap == 0)
+        ++wraps;
+    } else {
+      ++pushes_rej;
+      if (!Ad::bounded || (int64_t)present.size() < min_full) {
+        out.fail("C06", "big-false-full", fmt("push rejected with %zu values stored (rejection legal only with >= %" PRId64 ")", present.size(), min_full));
+        return false;
+      }
+    }
+    return true;
+  };
+  auto do_pop = [&]() -> bool {
+    OpRec o;
+    POp p{Q_POP, 0, (uint8_t)rng.below(2), false};
+    xrt::quiet_end();
+    exec_op(ad, p, o, mrec, 0);
+    xrt::quiet_begin();
+    ++nops;
+    xrt::main_progress();
+    log_op(o);
+    if (!o.r) {
+      ++pops_empty;
+      if (!present.empty()) {
+        out.fail("C06", "big-false-empty", fmt("pop reported EMPTY with %zu values stored and no operation in progress", present.size()));
+        return false;
+      }
+      return true;
+    }
+    ++pops_ok;
+    bool stored = present.has(o.r2);
+    if (stored) {
+      size_t rk = present.rank(o.r2);
+      if (rk < (size_t)prm.k) {
+        if (rk > max_rank)
+          max_rank = rk;
+        present.del(o.r2);
+        return true;
+      }
+    }
+    out.fail("C06", stored ? "big-order" : "big-not-stored",
+             stored ? fmt("pop returned %" PRId64 " which is not among the %" PRId64 " oldest values stored", o.r2, prm.k)
+                    : fmt("pop returned %" PRId64 " which is not stored (never pushed, or popped before)", o.r2));
+    return false;
+  };
+  bool ok = true;
+  // phase 1: fill until the first rejection (bounded) or past 2^16 + a bit (unbounded); then a few more pushes
+  int64_t fill_target = Ad::bounded ? cap + 2 * prm.k + (int64_t)rng.below(5) : (int64_t)70000 + (int64_t)rng.below(3000);
+  for (int64_t i = 0; ok && i < fill_target; ++i)
+    ok = do_push();
+  if (ok && Ad::bounded && (int64_t)present.size() < min_full) {
+    out.fail("C06", "big-false-full", fmt("only %zu values could be stored, fewer than (segments-1)*k+1 = %" PRId64, present.size(), min_full));
+    ok = false;
+  }
+  // phase 2: drain completely, two more pops must report EMPTY
+  while (ok && !present.empty())
+    ok = do_pop();
+  for (int i = 0; ok && i < 2; ++i)
+    ok = do_pop();
+  // phase 3: bursts crossing the wrap-around at varying fill levels
+  int64_t budget = Ad::bounded ? span * 2 + 1000 : std::min<int64_t>(span * 2 + 1000, 30000);
+  while (ok && budget > 0) {
+    int64_t burst = 1 + (int64_t)rng.below(rng.chance(1, 3) ? (uint32_t)std::min<int64_t>(span, 40000) : 64);
+    bool push = rng.chance(1, 2);
+    if (rng.chance(1, 8))
+      push = present.size() < (size_t)(span / 2); // pull towards the boundaries from time to time
+    int64_t done = 0;
+    for (uint64_t fails = 0; ok && done < burst && fails < 2; ++done) {
+      uint64_t before = pushes_rej + pops_empty;
+      ok = push ? do_push() : do_pop();
+      fails += (pushes_rej + pops_empty) - before; // two rejections / EMPTY verdicts in a row: turn around
+    }
+    budget -= done + 1;
+  }
+  // phase 4: final drain
+  while (ok && !present.empty())
+    ok = do_pop();
+  if (ok)
+    ok = do_pop();
+  elems().queue_dying = true;
+  {
+    xrt::quiet_end();
+    delete ad;
+    xrt::quiet_begin();
+  }
+  counters().add("ops", nops);
+  counters().add("big_ops", nops);
+  counters().add("big_pushes_accepted", pushes_ok);
+  counters().add("big_pushes_rejected", pushes_rej);
+  counters().add("big_pops", pops_ok);
+  counters().add("big_pops_empty", pops_empty);
+  counters().add("big_ring_wraps", wraps);
+  counters().max("max_big_overtaking_rank", max_rank);
+  out.hist_hash = mix64(mix64(nops, pushes_ok), mix64(pops_ok, pushes_rej) ^ ctx.seed);
+  out.nontrivial = true; // sequential by construction; counted as distinct sweeps, see the rule text of C06
+  if (out.violation || xrt::has_violation()) {
+    out.history = witness();
+    return;
+  }
+  if (E::owned) {
+    auto& reg = elems();
+    if (!reg.error_kind.empty()) {
+      out.history = witness();
+      out.fail("C07", reg.error_kind.c_str(), reg.error_msg);
+      return;
+    }
+    for (auto& kv : reg.m)
+      if (kv.second.dtors != 1) {
+        out.fail("C07", "elem-count", fmt("value %" PRId64 " in state %d destroyed %d times", kv.first, kv.second.state, kv.second.dtors));
+        return;
+      }
+  }
+}
+
 } // namespace
 
 // ---- configuration table ------------------------------------------------------------------------------------------
@@ -439,6 +628,10 @@ std::vector<Cfg>& table() {
 template <class Ad>
 void reg(const std::string& name, QParams p) {
   table().push_back({name, [p](const ExecCtx& c, ExecOut& o) { run_queue<Ad>(p, c, o); }});
+}
+template <class Ad>
+void reg_big(const std::string& name, QParams p) {
+  table().push_back({name, [p](const ExecCtx& c, ExecOut& o) { run_big<Ad>(p, c, o); }});
 }
 
 namespace xp = xenium::policy;
@@ -511,6 +704,14 @@ void register_all() {
   reg_kir<ElemUptr>(1);
   reg_kir<ElemRaw>(4);
   reg_kir<ElemUptr>(2);
+  {
+    QParams p;
+    p.prop = "C06";
+    p.k = 70000; // one segment larger than 2^16 entries
+    reg_big<KfifoAd<KIR<ElemUptr>, ElemUptr>>("big_kir_k70000_uptr", p);
+    p.k = 3;
+    reg_big<KfifoAd<KIR<ElemRaw>, ElemRaw>>("big_kir_k3_raw", p);
+  }
   #endif
 }
 const char* scenario_name() {
@@ -567,6 +768,23 @@ void register_all() {
   reg_kib<ElemRaw>(4, 3);
   reg_kib<ElemUptr>(3, 5);
   reg_kib<ElemUptr>(2, 3);
+  // large constructions: k * segments just below, at and above 2^16
+  auto big = [](int64_t k, int64_t segs, bool uptr) {
+    QParams p;
+    p.k = k;
+    p.segments = segs;
+    p.prop = "C06";
+    if (uptr)
+      reg_big<BoundedKfifoAd<KIB<ElemUptr>, ElemUptr>>(fmt("big_kib_k%d_s%d_uptr", (int)k, (int)segs), p);
+    else
+      reg_big<BoundedKfifoAd<KIB<ElemRaw>, ElemRaw>>(fmt("big_kib_k%d_s%d_raw", (int)k, (int)segs), p);
+  };
+  big(3, 21845, false);  // 65535
+  big(4, 16384, true);   // 65536
+  big(5, 13312, false);  // 66560
+  big(1, 131072, true);  // 2^17, k = 1 (strict FIFO)
+  big(256, 257, false);  // 65792 with a large k
+  big(2, 20000, true);   // 40000: large but below the limit (control)
 }
 const char* scenario_name() { return "queues.norecl"; }
 #endif
